@@ -33,6 +33,7 @@ RULE = ("case = (variant, steps, period, plug-in spelling, warm/cold, kill sched
 MANDATORY = ["steps_parsed", "traces_agree", "plugin_relative", "plugin_absolute", "plugin_with_py", "plugin_subdir", "plugin_module_name", "decoy_present", "warm_start_runs",
              "output_plugin_runs", "forcing_plugin_runs", "coded_scalar_values_checked", "ibm_positions_checked", "kills_checked", "late_release_in_record", "close_calls_checked"]
 ASSUMPTIONS = ["state and time have no close by design; close is required exactly once only for modules that define one"]
+MIN_CASES_PER_PROCESS = 4  # several runs share one interpreter: state leaking between runs (module caches, shared defaults) becomes observable
 TIMEOUT = {"quick": 900, "thorough": 3400}
 TOOL = 3  # sys.monitoring tool id
 SPELLINGS = ["relative", "relative_py", "absolute", "absolute_py", "subdir", "module_name"]
